@@ -1,0 +1,154 @@
+// SPDX-License-Identifier: Apache-2.0 OR MIT
+
+//! Verification hooks (only with `--cfg fast_tlsh_verif`): call each compiled
+//! body distance backend directly.
+//!
+//! Nothing in this module is compiled unless the `fast_tlsh_verif` cfg is set.
+
+#![cfg(fast_tlsh_verif)]
+#![allow(missing_docs)]
+#![allow(clippy::missing_docs_in_private_items)]
+
+/// Body distance backends.
+#[derive(Debug, Clone, Copy, PartialEq, Eq)]
+pub enum VerifDistanceBackend {
+    /// The function used by the public API (static or dynamic dispatch).
+    Dispatch,
+    /// 32-bit pseudo-SIMD.
+    Pseudo32,
+    /// 64-bit pseudo-SIMD.
+    Pseudo64,
+    /// x86 SSE2.
+    Sse2,
+    /// x86 SSE4.1.
+    Sse41,
+    /// x86 AVX2.
+    Avx2,
+}
+
+/// Computes the distance between two 12-byte bodies by the given backend.
+///
+/// Returns `None` if the backend is not compiled in (or not supported by
+/// the CPU).
+pub fn distance_12_by(
+    backend: VerifDistanceBackend,
+    body1: &[u8; 12],
+    body2: &[u8; 12],
+) -> Option<u32> {
+    match backend {
+        VerifDistanceBackend::Dispatch => Some(super::distance_12(body1, body2)),
+        VerifDistanceBackend::Pseudo32 => Some(super::pseudo_simd_32::distance_12(body1, body2)),
+        VerifDistanceBackend::Pseudo64 => Some(super::pseudo_simd_64::distance_12(body1, body2)),
+        _ => None,
+    }
+}
+
+/// Generates per-backend functions.
+macro_rules! verif_distance_by {
+    {$($by:ident = ($name:ident, $size:literal);)*} => {
+        $(
+            /// Computes the distance between two bodies by the given backend.
+            ///
+            /// Returns `None` if the backend is not compiled in (or not
+            /// supported by the CPU).
+            #[allow(unreachable_code)]
+            pub fn $by(
+                backend: VerifDistanceBackend,
+                body1: &[u8; $size],
+                body2: &[u8; $size],
+            ) -> Option<u32> {
+                match backend {
+                    VerifDistanceBackend::Dispatch => Some(super::$name(body1, body2)),
+                    VerifDistanceBackend::Pseudo32 => Some(super::pseudo_simd_32::$name(body1, body2)),
+                    VerifDistanceBackend::Pseudo64 => Some(super::pseudo_simd_64::$name(body1, body2)),
+                    VerifDistanceBackend::Sse2 => {
+                        #[cfg(all(
+                            feature = "simd-per-arch",
+                            feature = "opt-simd-body-comparison",
+                            feature = "detect-features",
+                            any(target_arch = "x86", target_arch = "x86_64")
+                        ))]
+                        {
+                            if std::arch::is_x86_feature_detected!("sse2") {
+                                #[allow(unsafe_code)]
+                                return Some(unsafe { super::x86_sse2::$name(body1, body2) });
+                            }
+                        }
+                        #[cfg(all(
+                            feature = "simd-per-arch",
+                            feature = "opt-simd-body-comparison",
+                            not(feature = "detect-features"),
+                            any(target_arch = "x86", target_arch = "x86_64"),
+                            not(target_feature = "avx2"),
+                            not(target_feature = "sse4.1"),
+                            target_feature = "sse2"
+                        ))]
+                        {
+                            #[allow(unsafe_code)]
+                            return Some(unsafe { super::x86_sse2::$name(body1, body2) });
+                        }
+                        None
+                    }
+                    VerifDistanceBackend::Sse41 => {
+                        #[cfg(all(
+                            feature = "simd-per-arch",
+                            feature = "opt-simd-body-comparison",
+                            feature = "detect-features",
+                            any(target_arch = "x86", target_arch = "x86_64")
+                        ))]
+                        {
+                            if std::arch::is_x86_feature_detected!("sse4.1") {
+                                #[allow(unsafe_code)]
+                                return Some(unsafe { super::x86_sse4_1::$name(body1, body2) });
+                            }
+                        }
+                        #[cfg(all(
+                            feature = "simd-per-arch",
+                            feature = "opt-simd-body-comparison",
+                            not(feature = "detect-features"),
+                            any(target_arch = "x86", target_arch = "x86_64"),
+                            not(target_feature = "avx2"),
+                            target_feature = "sse4.1"
+                        ))]
+                        {
+                            #[allow(unsafe_code)]
+                            return Some(unsafe { super::x86_sse4_1::$name(body1, body2) });
+                        }
+                        None
+                    }
+                    VerifDistanceBackend::Avx2 => {
+                        #[cfg(all(
+                            feature = "simd-per-arch",
+                            feature = "opt-simd-body-comparison",
+                            feature = "detect-features",
+                            any(target_arch = "x86", target_arch = "x86_64")
+                        ))]
+                        {
+                            if std::arch::is_x86_feature_detected!("avx2") {
+                                #[allow(unsafe_code)]
+                                return Some(unsafe { super::x86_avx2::$name(body1, body2) });
+                            }
+                        }
+                        #[cfg(all(
+                            feature = "simd-per-arch",
+                            feature = "opt-simd-body-comparison",
+                            not(feature = "detect-features"),
+                            any(target_arch = "x86", target_arch = "x86_64"),
+                            target_feature = "avx2"
+                        ))]
+                        {
+                            #[allow(unsafe_code)]
+                            return Some(unsafe { super::x86_avx2::$name(body1, body2) });
+                        }
+                        None
+                    }
+                }
+            }
+        )*
+    }
+}
+
+verif_distance_by! {
+    distance_32_by = (distance_32, 32);
+    distance_64_by = (distance_64, 64);
+}
